@@ -18,6 +18,10 @@ CHECKS = {
                 note="Trusted: lxml; the structural rules as written in the property."),
     "C08": dict(tech=ENUM, ref="5/C08", text="Every table state inside the bound (all seed encodings and their one-op successors) x every getter with every coordinate form (in, edge, beyond; tuple/string) x every returned object x every mutation of it: coordinates stamped, repeat cleared on expanding reads, beyond-the-edge reads empty and non-growing, table/maps/cached wrappers and sibling objects unchanged by the mutation, push-back equals the grid model.",
                 note="Trusted: lxml; the set of getters documented as returning copies (listed in evidence assumptions)."),
+    "C10": dict(tech=MC, ref="5/C10", text="Twin exploration: for every object state (tables, rows, cells inside the table bound; documents/containers/parts of the package machine) the clone is compared at birth and every bounded interleaving of operations on original and clone is executed; each twin must equal the same object run alone, the untouched twin never changes, no map list is shared.",
+                note="Trusted: lxml; observation = serialisation + position maps + cached wrappers (tables), part bytes and parsed trees (documents)."),
+    "C19": dict(tech=ENUM, ref="5/C19", text="Column letter/number bijection for every n up to the bound; for every seed table every cell and area in every coordinate form (tuple, list, string, lower case, negative, partial) through every coordinate-taking method against the grid model; named-range address round trip and rename for every accepted table name up to the length bound.",
+                note="Trusted: lxml; the documented coordinate conventions. 'Random large' numbers are not sampled."),
 }
 
 NOT_YET = {}
